@@ -35,7 +35,7 @@ def run(res):
     add(12, {}, "motion", 192, 128)
     add(10, {"tile_columns": 1, "tile_rows": 1}, "motion", 256, 256)
     add(8, {"tile_columns": 2, "tile_rows": 1}, "noise", 512, 128)
-    add(8, {}, "motion", 128, 192, 10)
+    add(8, {}, "motion", 192, 128, 10)
     add(8, {"enc_mode": 6}, "edges", 256, 128)                                   # loop restoration on (recorded finding)
     add(8, {"enc_mode": 6, "enable_restoration_filtering": 0}, "edges", 256, 128)
     if res.tier == "thorough":
